@@ -31,6 +31,11 @@ def cases(draw, tier):
                                  order_choices=(1, 1, 2, 2, 2, 3)))
 
 
+@st.composite
+def lattice(draw, tier):
+    return draw(gen.lattice_cases())
+
+
 def setup(tier, seed, shard):
     return {"worker": Worker(module="harness.native.worker2")}
 
@@ -107,7 +112,10 @@ def check(case, ctx=None):
     return result(fails, labels, nontrivial and produced, kcheck.case_id(case), kcheck.sample_of(case), extra)
 
 
-STREAMS = {"main": {"strategy": cases, "check": check, "setup": setup, "teardown": teardown}}
+STREAMS = {
+    "main": {"strategy": cases, "check": check, "setup": setup, "teardown": teardown},
+    "lattice": {"strategy": lattice, "check": check, "setup": setup, "teardown": teardown},
+}
 
 
 def shrink_case(case, bucket):
@@ -128,6 +136,7 @@ def replay(payload):
 def run(chk):
     n = 320 if chk.tier == "quick" else 25000
     chk.absorb(run_stream(__name__, "main", chk.tier, chk.seed, n), shrink=shrink_case)
+    chk.absorb(run_stream(__name__, "lattice", chk.tier, chk.seed, n), shrink=shrink_case)
 
 
 def health(cov):
